@@ -4,6 +4,12 @@ import ast
 from .. import heap as H
 from ..core import AnalysisError, norm, walk_no_nested
 
+
+def _OS_FIELDS(src):
+    from .common import ordered_set_fields
+    return ordered_set_fields(src)
+
+
 META = {
     'design_ref': 'DESIGN.md §5 C09',
     'technique': 'shape-case abstract interpretation of the loop-free LinkedList / LinkedListNode / OrderedSet methods over symbolic heaps with a reference list model as oracle; failure-atomicity on the same interpreter; Deb822Dict methods interpreted with case-variant keys (a plain string meets a stored key only in its lower-cased spelling) against a reference mapping; hash/equality agreement of the case-insensitive string from path enumeration; copy-protocol rule for classes that store weak references and for key classes with __slots__; __reduce__ interpreted after every re-ordering (items in list order); default sort key interpreted on names of mixed case; constructor interpreted on sequences of pairs with repeated keys; two-step histories (re-order, sort or delete, then assign) on objects completed with what the constructor derives from their attributes; a class that keeps a container rebuilt on copy next to a table of its nodes defines its own copy protocol (MRO lookup); operations on the empty key set',
@@ -159,7 +165,7 @@ def build_set(heap, src, keys):
     table = heap.new_dict('@table')
     for k, n in zip(keys, nodes):
         heap.objs[table.name]['entries'].append((k, n))
-    oset = heap.alloc('OrderedSet', {'_OrderedSet__table': table, '_OrderedSet__order': lst}, name='@set')
+    oset = heap.alloc('OrderedSet', {_OS_FIELDS(src)[0]: table, _OS_FIELDS(src)[1]: lst}, name='@set')
     return oset, lst, table, nodes
 
 
@@ -362,7 +368,7 @@ def r1_key_normalisation(rep, src):
     def state(heap, d, lst, table, me):
         oset = heap.objs[me.name]['_Deb822Dict__keys']
         o = heap.objs[oset.name]
-        lst2, table2 = o['_OrderedSet__order'], o['_OrderedSet__table']
+        lst2, table2 = o[_OS_FIELDS(src)[1]], o[_OS_FIELDS(src)[0]]
         order, problems = set_state(heap, lst2, table2)
         vals = {k.spelling if isinstance(k, H.Key) else k: v for k, v in heap.objs[heap.objs[me.name]['_Deb822Dict__dict'].name]['entries']}
         return order, vals, problems
